@@ -165,6 +165,15 @@ def _pairs(ctx):
             out.append((sn, kc.mk_area(sp, sw, sh, se), tn, kc.mk_area(tp, tw, th, te)))
     if ctx.quick:
         out = out[::2] + out[1::7]
+    # rim overlaps: the target reaches less than half a source pixel beyond the centres of the source's edge pixels, so the only
+    # target centres on the source grid lie in the outer half of the edge pixels (outside the polygon through the edge centres)
+    src = kc.mk_area(laea, 64, 48, (-2.0e6, -1.5e6, 2.0e6, 1.5e6))                  # 62.5 km pixels
+    px = 62500.0
+    out.append(("laea_eu", src, "t_rim_right", kc.mk_area(laea, 6, 5, (2.0e6 - 0.4 * px, -2.0e5, 2.0e6 - 0.4 * px + 6 * 20000.0, -1.0e5))))
+    out.append(("laea_eu", src, "t_rim_top", kc.mk_area(laea, 5, 6, (1.0e5, 1.5e6 - 0.35 * px, 2.0e5, 1.5e6 - 0.35 * px + 6 * 15000.0))))
+    out.append(("laea_eu", src, "t_rim_left_bottom", kc.mk_area(laea, 4, 4, (-2.0e6 - 3 * 25000.0, -1.5e6 - 3 * 25000.0, -2.0e6 + 0.3 * px, -1.5e6 + 0.3 * px))))
+    s2 = kc.mk_area(stere, 60, 50, (-2.0e6, -5.0e6, 2.5e6, -1.5e6))                   # 75 x 70 km pixels
+    out.append(("stere_eu", s2, "t_rim_stere_bottom", kc.mk_area(stere, 6, 4, (0.0, -5.0e6 - 3 * 20000.0, 1.2e5, -5.0e6 + 0.4 * 70000.0))))
     return out
 
 
@@ -227,17 +236,23 @@ def suite_swath(ctx):
     # a grid rotated by 30 degrees, seen as a swath
     base = kc.mk_area({"proj": "laea", "lat_0": 50, "lon_0": 10, "ellps": "WGS84"}, n, n, (-1.0e6, -1.0e6, 1.0e6, 1.0e6))
     bx, by = base.get_proj_coords()
-    ang = np.radians(30)
-    rx, ry = bx * np.cos(ang) - by * np.sin(ang), bx * np.sin(ang) + by * np.cos(ang)
-    lons, lats = base.get_lonlat_from_projection_coordinates(rx, ry)
-    chunkings = [((n,), (n,)), ((10,) * 4, (20, 20)), ((10, 30), (n,)), ((4, 12, 12, 12), (8, 32)), ((3, 5, 2, 30), (1, 39)), ((25, 5, 10), (13, 14, 13))]
+    chunkings = [((n,), (n,)), ((10,) * 4, (20, 20)), ((10,) * 4, (10,) * 4), ((10, 30), (n,)), ((4, 12, 12, 12), (8, 32)), ((3, 5, 2, 30), (1, 39)), ((25, 5, 10), (13, 14, 13))]
     targets = [kc.mk_area({"proj": "laea", "lat_0": 50, "lon_0": 10, "ellps": "WGS84"}, 6, 5, e) for e in
                ((-2.0e5, -2.0e5, 2.0e5, 2.0e5), (4.0e5, 3.0e5, 9.0e5, 8.0e5), (-1.2e6, -3.0e5, -5.0e5, 1.0e5), (-1.0e5, 6.0e5, 3.0e5, 1.1e6))]
     targets.append(kc.mk_area({"proj": "merc", "lon_0": 0, "ellps": "WGS84"}, 5, 5, (1.0e6, 6.0e6, 1.6e6, 6.8e6)))
-    for ch in (chunkings if not ctx.quick else chunkings[:2] + r.sample(chunkings[2:], 2)):
+    # long thin targets: they cross the (rotated) swath's chunk grid along either diagonal
+    targets.append(kc.mk_area({"proj": "laea", "lat_0": 50, "lon_0": 10, "ellps": "WGS84"}, 14, 3, (-8.5e5, -1.0e5, 8.5e5, 1.0e5)))
+    targets.append(kc.mk_area({"proj": "laea", "lat_0": 50, "lon_0": 10, "ellps": "WGS84"}, 3, 14, (-1.0e5, -8.5e5, 1.0e5, 8.5e5)))
+    combos = [(a_, ch_) for a_ in (30, -30) for ch_ in chunkings]
+    if ctx.quick:
+        combos = [(30, chunkings[1]), (-30, chunkings[2]), (30, chunkings[2])] + r.sample(combos, 2)
+    for ang_deg, ch in combos:
+        ang = np.radians(ang_deg)
+        rx, ry = bx * np.cos(ang) - by * np.sin(ang), bx * np.sin(ang) + by * np.cos(ang)
+        lons, lats = base.get_lonlat_from_projection_coordinates(rx, ry)
         sw = SwathDefinition(xr.DataArray(da.from_array(lons, chunks=ch), dims=("y", "x")), xr.DataArray(da.from_array(lats, chunks=ch), dims=("y", "x")))
         for ti, tgt in enumerate(targets):
-            inp = {"swath_shape": [n, n], "chunks": [list(ch[0]), list(ch[1])], "target_extent": [float(v) for v in tgt.area_extent], "target_crs": str(tgt.crs.to_dict().get("proj"))}
+            inp = {"swath_shape": [n, n], "swath_rotation_deg": ang_deg, "chunks": [list(ch[0]), list(ch[1])], "target_extent": [float(v) for v in tgt.area_extent], "target_crs": str(tgt.crs.to_dict().get("proj"))}
             # needed swath pixels: nearest swath pixel to every target centre (brute force), if within one pixel spacing
             tlo, tla = kc.lonlats(tgt)
             d, sv, tv = kc.dist_matrix(lons.ravel(), lats.ravel(), tlo.ravel(), tla.ravel())
@@ -253,13 +268,13 @@ def suite_swath(ctx):
                 if rows.size:
                     ctx.fail("slicer.SwathSlicer", f"reported as non-overlapping although {rows.size} target centres lie on the swath", inp,
                              tags={"irregular_chunks": len(set(ch[0][:-1])) > 1 or len(set(ch[1][:-1])) > 1}, size=5)
-                ctx.case("swath", (str(ch), ti), nontrivial=True)
+                ctx.case("swath", (ang_deg, str(ch), ti), nontrivial=True)
                 continue
             if rows.size and not ((rows >= ys.start) & (rows < ys.stop) & (cols >= xs.start) & (cols < xs.stop)).all():
                 k = int(np.flatnonzero(~((rows >= ys.start) & (rows < ys.stop) & (cols >= xs.start) & (cols < xs.stop)))[0])
                 ctx.fail("slicer.SwathSlicer", f"the slices drop swath pixel (line {int(rows[k])}, col {int(cols[k])}) nearest to a target pixel centre", inp,
                          {"x_slice": str(xs), "y_slice": str(ys)}, tags={"irregular_chunks": len(set(ch[0][:-1])) > 1 or len(set(ch[1][:-1])) > 1}, size=5)
-            ctx.case("swath", (str(ch), ti), nontrivial=len(ch[0]) > 1 or len(ch[1]) > 1, sample={"input": inp, "slices": [str(xs), str(ys)]})
+            ctx.case("swath", (ang_deg, str(ch), ti), nontrivial=len(ch[0]) > 1 or len(ch[1]) > 1, sample={"input": inp, "slices": [str(xs), str(ys)]})
 
 
 def run(ctx):
